@@ -56,3 +56,7 @@ mod c10_task;
 mod c11_task;
 #[cfg(any(not(verif_select), verif_gr))]
 mod c12_nts;
+#[cfg(any(not(verif_select), verif_gt))]
+mod c36_system;
+#[cfg(any(not(verif_select), verif_gt))]
+mod c11_system;
